@@ -112,7 +112,9 @@ CHECKS = {
         "reviewed list (generated obligation; archmagefb's three are an open known finding: a unit test asserts the behaviour). StackableBuffSkillComponent.use as shipped is refuted with a witness (open known finding: a unit "
         "test asserts the behaviour) and its largest true part is proved; three further defects found by this check in job-specific classes "
         "(FlameSwipVI.use, the two FlareSlash triggers) were repaired and the models follow the repaired code. The models are compared in Coq "
-        "with the real reducers (full output state, event list, views) on random, reachable and shipped instances on every run.",
+        "with the real reducers (full output state, event list, views) on random, reachable and shipped instances on every run. The event plumbing of the component dispatcher (regularize_returned_event, tag_events_by_method_name with the automatic ACCEPT) and the "
+        "signature / address rules are regenerated from the source (tools/tr_wrapper.py) and proved equal to the definitions of Model/Dispatch.v "
+        "(Props/C07_wrapper_src.v).",
    note="Trusted: Coq kernel/vm_compute; the correspondence harnesses (tools/lib/h_entity.py, ext_adele.py, ext_mage.py, ext_mech.py); tick-valued "
         "time; pydantic deepcopy/validation and the dispatcher glue outside the model. In addition the property is tested on every installed "
         "component of all jobs in reachable states (exploration, not proof).",
